@@ -1,6 +1,7 @@
 import MesaModel.Proofs.CellDyn
 import MesaModel.Proofs.CellCollection
 import MesaModel.Proofs.CellHexMove
+import MesaModel.Proofs.CellExact
 /-!
 # C06 — cell spaces: `agent.cell` and `cell.agents` mirror each other; capacity; emptiness views
 
@@ -72,33 +73,33 @@ theorem C06_mirror {sp : Space} (hsp : SpaceOK sp) {s : State} (h : Reachable sp
     rw [e1] at e2; simpa using e2
   · exact ⟨hi.mem_cell a c hm, hi.occ_cells a c hm⟩
 
-/-- Capacity: after any history a cell with capacity k ≥ 1 holds at most k agents. -/
+/-- Capacity: after any history a cell with capacity k holds at most k agents — for every k, 0 included (a cell of
+    capacity 0, e.g. a tiny Voronoi cell under the default capacity function, never holds anybody: repair SC3). -/
 theorem C06_capacity {sp : Space} (hsp : SpaceOK sp) {s : State} (h : Reachable sp s) (c : Cid) (k : Nat)
-    (hk : sp.cap c = some k) (hk1 : 1 ≤ k) : (s.occ c).length ≤ k :=
-  (reachable_inv hsp h).cap c k hk (by omega)
+    (hk : sp.cap c = some k) : (s.occ c).length ≤ k :=
+  (reachable_inv hsp h).cap c k hk
 
 /-- The default `capacity_function` of `VoronoiGrid` (`round_float`): the i-th cell, of exact area `num/den`, gets
     the capacity `k = int(500 · area)`, i.e. `k ≤ 500 · num/den < k + 1`, whatever `capacity` was passed to the
-    constructor; and after any history a cell with `k ≥ 1` holds at most `k` agents (each cell its own bound). -/
+    constructor; and after any history the cell holds at most `k` agents (each cell its own bound; `k = 0`: nobody). -/
 theorem C06_voronoi_default_capacity (n : Nat) (tris : List (Nat × Nat × Nat)) (areas : List (Nat × Nat))
     (ht : ∀ t ∈ tris, t.1 < n ∧ t.2.1 < n ∧ t.2.2 < n) (i num den : Nat) (ha : areas[i]? = some (num, den)) (hd : 0 < den) :
     (vorSpaceAreas n tris areas).cap [(i : Int)] = some (roundFloat num den) ∧
     roundFloat num den * den ≤ 500 * num ∧ 500 * num < (roundFloat num den + 1) * den ∧
-    (∀ s, Reachable (vorSpaceAreas n tris areas) s → 1 ≤ roundFloat num den →
-      (s.occ [(i : Int)]).length ≤ roundFloat num den) := by
+    (∀ s, Reachable (vorSpaceAreas n tris areas) s → (s.occ [(i : Int)]).length ≤ roundFloat num den) := by
   have hcap : (vorSpaceAreas n tris areas).cap [(i : Int)] = some (roundFloat num den) := by
     simp [vorSpaceAreas, ha]
-  refine ⟨hcap, (roundFloat_spec num den hd).1, (roundFloat_spec num den hd).2, fun s hr h1 => ?_⟩
-  exact (reachable_inv (vorSpaceAreas_ok n tris areas ht) hr).cap _ _ hcap (by omega)
+  refine ⟨hcap, (roundFloat_spec num den hd).1, (roundFloat_spec num den hd).2, fun s hr => ?_⟩
+  exact (reachable_inv (vorSpaceAreas_ok n tris areas ht) hr).cap _ _ hcap
 
 /-- Emptiness views agree with the truth after any history: `is_empty` is "no agents"; `is_full` is exactly
-    "`add_agent` would refuse" (for capacities ≥ 1); on a grid the `empty` property layer / `cell.empty`
+    "`add_agent` would refuse" (every capacity: None, 0, k); on a grid the `empty` property layer / `cell.empty`
     holds `is_empty` for every cell; `empties` is the list of cells without agents; `space.agents` is the
     cells' agent lists chained — duplicate-free, containing exactly the listed agents, among them every
     agent still in the model that reports a cell. -/
 theorem C06_views {sp : Space} (hsp : SpaceOK sp) {s : State} (h : Reachable sp s) :
     (∀ c, isEmpty s c = true ↔ s.occ c = []) ∧
-    (∀ c k, sp.cap c = some k → 1 ≤ k → (isFull sp s c = true ↔ fullFor sp s c = true)) ∧
+    (∀ c, isFull sp s c = fullFor sp s c) ∧
     (sp.isGrid = true → ∀ c, s.flag c = some (isEmpty s c)) ∧
     (∀ c, c ∈ empties sp s ↔ c ∈ sp.cells ∧ s.occ c = []) ∧
     (spaceAgents sp s = sp.cells.flatMap s.occ ∧ (spaceAgents sp s).Nodup) ∧
@@ -112,13 +113,17 @@ theorem C06_views {sp : Space} (hsp : SpaceOK sp) {s : State} (h : Reachable sp 
     constructor
     · rintro ⟨c, _, hm⟩; exact ⟨c, hm⟩
     · rintro ⟨c, hm⟩; exact ⟨c, hi.occ_cells a c hm, hm⟩
-  refine ⟨fun c => by simp [isEmpty], fun c k hk hk1 => ?_, fun hg c => ?_, fun c => ?_, ⟨hsa, ?_⟩, hmem,
+  refine ⟨fun c => by simp [isEmpty], fun c => ?_, fun hg c => ?_, fun c => ?_, ⟨hsa, ?_⟩, hmem,
     fun a c hr hc => ?_⟩
-  · have hcap := hi.cap c k hk (by omega)
-    simp only [isFull, fullFor, hk]
-    have : k ≠ 0 := by omega
-    simp [this]
-    omega
+  · cases hk : sp.cap c with
+    | none => simp [isFull, fullFor, hk]
+    | some k =>
+      have hcap := hi.cap c k hk
+      simp only [isFull, fullFor, hk]
+      by_cases he : (s.occ c).length = k
+      · simp [he]
+      · have : ¬ (s.occ c).length ≥ k := by omega
+        simp [he, this]
   · rcases hi.flag c with h1 | ⟨h1, _⟩
     · exact h1
     · rw [hg] at h1; simp at h1
@@ -388,6 +393,284 @@ theorem C06_select_random_spec {sp : Space} (hsp : SpaceOK sp) {s : State} (h : 
   · obtain ⟨x, _, hx⟩ := pick_cons hne d ds; exact ⟨x, hx⟩
   · obtain ⟨x, _, hx⟩ := pick_cons hne d ds; exact ⟨x, hx⟩
 
+/-- `cell.empty` on a space that is not a grid (`Network`, `VoronoiGrid`: no property layer, a plain instance attribute
+    written by `add_agent` / `remove_agent`): after any history it either does not exist yet — then the cell has never been
+    entered and is empty — or holds `is_empty`. -/
+theorem C06_cell_empty_attribute {sp : Space} (hsp : SpaceOK sp) {s : State} (h : Reachable sp s) (c : Cid) :
+    (s.flag c = none → sp.isGrid = false ∧ s.occ c = []) ∧
+    (∀ b, s.flag c = some b → b = isEmpty s c) := by
+  have hi := reachable_inv hsp h
+  rcases hi.flag c with h1 | ⟨h1, h2, h3⟩
+  · constructor
+    · intro hn
+      rw [h1] at hn
+      exact absurd hn (by simp)
+    · intro b hb
+      rw [h1] at hb
+      simpa [isEmpty] using hb.symm
+  · constructor
+    · intro _
+      exact ⟨h1, h3⟩
+    · intro b hb
+      rw [h2] at hb
+      exact absurd hb (by simp)
+
+/-! ### exact outcomes (what a placing call does, and exactly when it is refused) -/
+
+/-- `a.cell = space[c]` (= `a.move_to(space[c])`) for a CellAgent / Grid2DMovingAgent, after any history, for any cell of the
+    space: it is refused — "Cell is full", nothing changed — **iff** `c` is not the agent's own cell and `c` has a capacity
+    `n` and holds exactly `n` agents (so never for capacity `None`, always for capacity 0, and never when re-entering the own,
+    possibly full, cell); otherwise it returns, the agent reports `c`, `c`'s list is its old list without the agent plus
+    the agent at the end, every other list is the old one without the agent (only the cell left changes), no other agent's
+    cell changes and the model's registry is untouched. -/
+theorem C06_assignment_exact {sp : Space} (hsp : SpaceOK sp) {s : State} (h : Reachable sp s) (a : Aid) (k : AKind)
+    (hk : s.kinds[a]? = some k) (hmob : k ≠ .fixed) (c : Cid) (hc : c ∈ sp.cells) :
+    (step sp s (.moveTo a c) = step sp s (.setCell a (some c))) ∧
+    ((step sp s (.setCell a (some c))).2 = .err .full ↔
+      s.cellOf a ≠ some c ∧ ∃ n, sp.cap c = some n ∧ (s.occ c).length = n) ∧
+    ((step sp s (.setCell a (some c))).2 = .err .full → (step sp s (.setCell a (some c))).1 = s) ∧
+    ((step sp s (.setCell a (some c))).2 ≠ .err .full →
+      (step sp s (.setCell a (some c))).2 = .ok ∧
+      (step sp s (.setCell a (some c))).1.cellOf a = some c ∧
+      (step sp s (.setCell a (some c))).1.occ c = (s.occ c).erase a ++ [a] ∧
+      (∀ c', c' ≠ c → (step sp s (.setCell a (some c))).1.occ c' = (s.occ c').erase a) ∧
+      (∀ b, b ≠ a → (step sp s (.setCell a (some c))).1.cellOf b = s.cellOf b) ∧
+      (step sp s (.setCell a (some c))).1.registry = s.registry ∧
+      (step sp s (.setCell a (some c))).1.kinds = s.kinds) := by
+  have hi := reachable_inv hsp h
+  have hm : ∀ o, s.cellOf a = some o → a ∈ s.occ o := fun o ho => hi.mobile_mem hk hmob ho
+  have hset : step sp s (.setCell a (some c)) = setCellMobile sp s a (some c) := by
+    simp only [step, hk, hc, if_true]
+    cases k <;> simp_all [setCell]
+  have hmove : step sp s (.moveTo a c) = setCellMobile sp s a (some c) := by
+    simp only [step, hk, hc, if_true]
+    cases k <;> simp_all [setCell]
+  rw [hmove, hset, setCellMobile_eq hi hm]
+  have hff := fullFor_iff hi c
+  have hother : ∀ c', s.cellOf a ≠ some c' → (s.occ c').erase a = s.occ c' := by
+    intro c' hne
+    apply List.erase_of_not_mem
+    intro hmem
+    exact hne (hi.mem_cell a c' hmem)
+  refine ⟨rfl, ?_⟩
+  cases ho : s.cellOf a with
+  | none =>
+    have hnc : (s.occ c).erase a = s.occ c := hother c (by rw [ho]; simp)
+    by_cases hf : fullFor sp s c = true
+    · have hn := hff.mp hf
+      simp [hf, hn]
+    · have hf' : fullFor sp s c = false := by simpa using hf
+      have hn : ¬ ∃ n, sp.cap c = some n ∧ (s.occ c).length = n := fun hx => hf (hff.mpr hx)
+      simp only [hf', Bool.false_eq_true, if_false]
+      refine ⟨⟨fun hx => by simp at hx, fun hx => absurd hx.2 hn⟩, fun hx => by simp at hx, fun _ => ?_⟩
+      refine ⟨trivial, by simp [place, upd_same], by simp [place, upd_same, hnc], fun c' hc' => ?_, fun b hb => ?_, rfl, rfl⟩
+      · simp only [place, upd_other _ _ _ hc']
+        exact (hother c' (by rw [ho]; simp)).symm
+      · simp only [place, upd_other _ _ _ hb]
+  | some o =>
+    by_cases hco : c = o
+    · subst hco
+      simp only [if_true]
+      refine ⟨⟨fun hx => by simp at hx, fun hx => absurd rfl hx.1⟩, fun hx => by simp at hx, fun _ => ?_⟩
+      refine ⟨trivial, by simp [place, upd_same], by simp [place, unplace, upd_same], fun c' hc' => ?_, fun b hb => ?_, rfl, rfl⟩
+      · simp only [place, unplace, upd_other _ _ _ hc']
+        exact (hother c' (by rw [ho]; simpa using fun e => hc' e.symm)).symm
+      · simp only [place, unplace, upd_other _ _ _ hb]
+    · have hne : (some o : Option Cid) ≠ some c := by simpa using fun e => hco e.symm
+      have hnc : (s.occ c).erase a = s.occ c := hother c (by rw [ho]; exact hne)
+      simp only [hco, if_false]
+      by_cases hf : fullFor sp s c = true
+      · have hn := hff.mp hf
+        simp [hf, hn, hne]
+      · have hf' : fullFor sp s c = false := by simpa using hf
+        have hn : ¬ ∃ n, sp.cap c = some n ∧ (s.occ c).length = n := fun hx => hf (hff.mpr hx)
+        simp only [hf', Bool.false_eq_true, if_false]
+        refine ⟨⟨fun hx => by simp at hx, fun hx => absurd hx.2 hn⟩, fun hx => by simp at hx, fun _ => ?_⟩
+        refine ⟨trivial, by simp [place, upd_same], ?_, fun c' hc' => ?_, fun b hb => ?_, rfl, rfl⟩
+        · simp only [place, unplace, upd_same, upd_other _ _ _ hco, hnc]
+        · simp only [place, upd_other _ _ _ hc']
+          by_cases hc'o : c' = o
+          · subst hc'o; simp [unplace, upd_same]
+          · simp only [unplace, upd_other _ _ _ hc'o]
+            exact (hother c' (by rw [ho]; simpa using fun e => hc'o e.symm)).symm
+        · simp only [place, unplace, upd_other _ _ _ hb]
+
+/-- `a.cell = None` on a mobile agent, after any history: always accepted; the agent reports no cell and is in no list,
+    every list is the old one without the agent, nobody else is touched.  `FixedAgent`: `a.cell = space[c]` is refused with
+    "Cannot move agent in FixedCell" iff the agent has ever been placed (also after its `remove()`), else with "Cell is
+    full" iff the cell holds as many agents as its capacity `n`, else the agent is appended to the cell's list. -/
+theorem C06_unplace_and_fixed_exact {sp : Space} (hsp : SpaceOK sp) {s : State} (h : Reachable sp s) (a : Aid) (k : AKind)
+    (hk : s.kinds[a]? = some k) :
+    (k ≠ .fixed →
+      (step sp s (.setCell a none)).2 = .ok ∧ (step sp s (.setCell a none)).1.cellOf a = none ∧
+      (∀ c, (step sp s (.setCell a none)).1.occ c = (s.occ c).erase a ∧ a ∉ (step sp s (.setCell a none)).1.occ c) ∧
+      (∀ b, b ≠ a → (step sp s (.setCell a none)).1.cellOf b = s.cellOf b) ∧
+      (step sp s (.setCell a none)).1.registry = s.registry) ∧
+    (k = .fixed → ∀ c, c ∈ sp.cells →
+      ((step sp s (.setCell a (some c))).2 = .err .fixed ↔ s.cellOf a ≠ none) ∧
+      ((step sp s (.setCell a (some c))).2 = .err .full ↔
+        s.cellOf a = none ∧ ∃ n, sp.cap c = some n ∧ (s.occ c).length = n) ∧
+      ((step sp s (.setCell a (some c))).2 ≠ .ok → (step sp s (.setCell a (some c))).1 = s) ∧
+      ((step sp s (.setCell a (some c))).2 = .ok →
+        (step sp s (.setCell a (some c))).1.cellOf a = some c ∧
+        (step sp s (.setCell a (some c))).1.occ c = s.occ c ++ [a] ∧
+        (∀ c', c' ≠ c → (step sp s (.setCell a (some c))).1.occ c' = s.occ c') ∧
+        (∀ b, b ≠ a → (step sp s (.setCell a (some c))).1.cellOf b = s.cellOf b))) := by
+  have hi := reachable_inv hsp h
+  have hother : ∀ c', s.cellOf a ≠ some c' → (s.occ c').erase a = s.occ c' := by
+    intro c' hne
+    apply List.erase_of_not_mem
+    intro hmem
+    exact hne (hi.mem_cell a c' hmem)
+  constructor
+  · intro hmob
+    have hm : ∀ o, s.cellOf a = some o → a ∈ s.occ o := fun o ho => hi.mobile_mem hk hmob ho
+    have hset : step sp s (.setCell a none) = setCellMobile sp s a none := by
+      simp only [step, hk]
+      cases k <;> simp_all [setCell]
+    rw [hset, setCellMobile_eq hi hm]
+    cases ho : s.cellOf a with
+    | none =>
+      refine ⟨rfl, ho, fun c => ⟨(hother c (by rw [ho]; simp)).symm, hi.not_mem_of_none ho c⟩, fun _ _ => rfl, rfl⟩
+    | some o =>
+      refine ⟨rfl, by simp [unplace, upd_same], fun c => ?_, fun b hb => by simp only [unplace, upd_other _ _ _ hb], rfl⟩
+      by_cases hco : c = o
+      · subst hco
+        simp only [unplace, upd_same, true_and]
+        exact fun hx => ((hi.nodup c).mem_erase_iff.mp hx).1 rfl
+      · have hne : s.cellOf a ≠ some c := by rw [ho]; simpa using fun e => hco e.symm
+        simp only [unplace, upd_other _ _ _ hco]
+        exact ⟨(hother c hne).symm, fun hx => hne (hi.mem_cell a c hx)⟩
+  · intro hfix c hc
+    subst hfix
+    have hset : step sp s (.setCell a (some c)) = setCellFixed sp s a (some c) := by
+      simp only [step, hk, hc, if_true, setCell]
+    rw [hset, setCellFixed_eq hi]
+    have hff := fullFor_iff hi c
+    cases ho : s.cellOf a with
+    | some o => simp
+    | none =>
+      by_cases hf : fullFor sp s c = true
+      · have hn := hff.mp hf
+        simp [hf, hn]
+      · have hf' : fullFor sp s c = false := by simpa using hf
+        have hn : ¬ ∃ n, sp.cap c = some n ∧ (s.occ c).length = n := fun hx => hf (hff.mpr hx)
+        simp only [hf', Bool.false_eq_true, if_false]
+        refine ⟨by simp, ⟨fun hx => by simp at hx, fun hx => absurd hx.2 hn⟩, fun hx => by simp at hx, fun _ => ?_⟩
+        refine ⟨by simp [place, upd_same], by simp [place, upd_same], fun c' hc' => ?_, fun b hb => ?_⟩
+        · simp only [place, upd_other _ _ _ hc']
+        · simp only [place, upd_other _ _ _ hb]
+
+/-- `select_random_empty_cell`, exactly (C06's "only ever returns a cell with no agents" is `C06_select_random_empty_cell`):
+    *rejection sampling* (a grid with `_try_random`, the default): the cells named by the draws are tried in order and the
+    first one without agents is returned — never an occupied one, never IndexError; if every drawn cell is occupied the
+    script is exhausted (the real loop goes on drawing).  *List strategy* (`Network`, `VoronoiGrid`, a grid with
+    `_try_random = False`): IndexError, without a draw, iff no cell is empty; otherwise one draw `d` returns the
+    `d % len`-th cell of `empties` (the cells without agents, in the space's order). -/
+theorem C06_select_random_empty_exact (sp : Space) (s : State) (draws : List Nat) :
+    ((sp.isGrid && s.tryRandom) = true → sp.cells ≠ [] →
+      (step sp s (.randEmpty draws)).2 =
+        match (drawn sp.cells draws).find? (fun c => (s.occ c).isEmpty) with
+        | some c => .okCell c
+        | none => .err .script) ∧
+    ((sp.isGrid && s.tryRandom) = false →
+      ((step sp s (.randEmpty draws)).2 = .err .index ↔ ∀ c ∈ sp.cells, s.occ c ≠ []) ∧
+      (∀ d ds, draws = d :: ds → (∃ c ∈ sp.cells, s.occ c = []) →
+        ∃ c, (sp.cells.filter fun c => (s.occ c).isEmpty)[d % (sp.cells.filter fun c => (s.occ c).isEmpty).length]? = some c ∧
+          (step sp s (.randEmpty draws)).2 = .okCell c)) := by
+  constructor
+  · intro hg hne
+    simp only [step, hg, if_true]
+    exact tryRandomLoop_eq s sp.cells hne draws
+  · intro hg
+    have hstep : (step sp s (.randEmpty draws)).2 = choice (empties sp s) draws := by
+      simp only [step, hg, Bool.false_eq_true, if_false]
+    rw [hstep]
+    have hemp : empties sp s = sp.cells.filter fun c => (s.occ c).isEmpty := rfl
+    constructor
+    · unfold choice
+      by_cases he : (empties sp s).isEmpty = true
+      · simp only [he, if_true, true_iff]
+        intro c hc hocc
+        have : c ∈ empties sp s := by simp [empties, isEmpty, hc, hocc]
+        rw [List.isEmpty_iff.mp he] at this
+        cases this
+      · simp only [he, Bool.false_eq_true, if_false]
+        have hne : empties sp s ≠ [] := fun e => he (by simp [e])
+        obtain ⟨c, hcm⟩ := List.exists_mem_of_ne_nil _ hne
+        have hc2 : c ∈ sp.cells ∧ s.occ c = [] := by simpa [empties, isEmpty] using hcm
+        constructor
+        · intro hx
+          exfalso
+          cases draws with
+          | nil => simp at hx
+          | cons d ds =>
+            have hpos : 0 < (empties sp s).length := List.length_pos_iff.mpr hne
+            simp [draw, Nat.mod_lt _ hpos] at hx
+        · intro hall
+          exact absurd hc2.2 (hall c hc2.1)
+    · intro d ds hd ⟨c, hc, hocc⟩
+      subst hd
+      have hmem : c ∈ empties sp s := by simp [empties, isEmpty, hc, hocc]
+      have hne : empties sp s ≠ [] := List.ne_nil_of_mem hmem
+      have hpos : 0 < (empties sp s).length := List.length_pos_iff.mpr hne
+      have hie : (empties sp s).isEmpty = false := by
+        cases hl : empties sp s with
+        | nil => exact absurd hl hne
+        | cons x t => rfl
+      refine ⟨(empties sp s)[d % (empties sp s).length]'(Nat.mod_lt _ hpos), ?_, ?_⟩
+      · rw [← hemp]; simp [Nat.mod_lt _ hpos]
+      · simp [choice, hie, draw, Nat.mod_lt _ hpos]
+
+theorem removeEach_listed {sp : Space} (hsp : SpaceOK sp) (c : Cid) (l : List Aid) :
+    ∀ {s : State}, Reachable sp s → s.occ c = l →
+      (removeEach sp s l).2 = .ok ∧ (removeEach sp s l).1.occ c = [] ∧
+      (∀ c', c' ≠ c → (removeEach sp s l).1.occ c' = s.occ c') ∧
+      (∀ b, b ∈ (removeEach sp s l).1.registry ↔ b ∈ s.registry ∧ b ∉ l) ∧
+      Reachable sp (removeEach sp s l).1 := by
+  induction l with
+  | nil =>
+    intro s h hl
+    exact ⟨rfl, hl, fun _ _ => rfl, fun b => by simp [removeEach], h⟩
+  | cons a t ih =>
+    intro s h hl
+    have hi := reachable_inv hsp h
+    have hm : a ∈ s.occ c := by rw [hl]; simp
+    obtain ⟨hok, hocc, hreg⟩ := remove_listed hi hm
+    have hr' : Reachable sp (step sp s (.remove a)).1 := h.step (.remove a)
+    have hpair : step sp s (.remove a) = ((step sp s (.remove a)).1, .ok) := by
+      rw [← hok]
+    have hunf : removeEach sp s (a :: t) = removeEach sp (step sp s (.remove a)).1 t := by
+      rw [removeEach, hpair]
+    have hl' : (step sp s (.remove a)).1.occ c = t := by
+      rw [hocc c, hl]; simp
+    obtain ⟨h1, h2, h3, h4, h5⟩ := ih hr' hl'
+    rw [hunf]
+    refine ⟨h1, h2, fun c' hc' => ?_, fun b => ?_, h5⟩
+    · rw [h3 c' hc', hocc c']
+      apply List.erase_of_not_mem
+      intro hmem
+      have e1 := hi.mem_cell a c' hmem
+      have e2 := hi.mem_cell a c hm
+      rw [e1] at e2
+      exact hc' (by simpa using e2)
+    · rw [h4 b, hreg, hi.reg_nodup.mem_erase_iff]
+      simp only [List.mem_cons, not_or]
+      constructor
+      · rintro ⟨⟨h6, h7⟩, h8⟩; exact ⟨h7, h6, h8⟩
+      · rintro ⟨h7, h6, h8⟩; exact ⟨⟨h6, h7⟩, h8⟩
+
+/-- Emptying a cell by `for a in cell.agents: a.remove()`, after any history, for any cell and whatever agents (mobile,
+    fixed, still in the model or not) it lists: every `remove()` returns, the cell ends up empty, no other cell's list
+    changes, and exactly the agents the cell listed have left the model's registry.  (That `cell.agents` is a copy — so the
+    loop sees every agent although they leave the cell's own list meanwhile — is the tie's `agentscopy` / `clearcell` lines.) -/
+theorem C06_clear_cell {sp : Space} (hsp : SpaceOK sp) {s : State} (h : Reachable sp s) (c : Cid) :
+    (clearCell sp s c).2 = .ok ∧ (clearCell sp s c).1.occ c = [] ∧
+    (∀ c', c' ≠ c → (clearCell sp s c).1.occ c' = s.occ c') ∧
+    (∀ b, b ∈ (clearCell sp s c).1.registry ↔ b ∈ s.registry ∧ b ∉ s.occ c) ∧
+    Reachable sp (clearCell sp s c).1 :=
+  removeEach_listed hsp c (s.occ c) h rfl
+
 /-! ### non-vacuity -/
 
 -- a 2×2 Moore torus with capacity 1: place, rejected move into a full cell (S11 witness: nothing changes),
@@ -443,5 +726,41 @@ example : select (some (isFull sp0 s0)) (.frac 1 2) sp0.cells = [[0, 0], [1, 1]]
 example : selectRandomCell (empties sp0 s0) [7, 3] = .ok [1, 0] 1 1 ∧ selectRandomAgent s0 sp0.cells [6] = .ok 0 0 1 ∧
     selectRandomAgent s0 (empties sp0 s0) [6] = .err .index ∧ selectRandomCell sp0.cells [] = .err .script := by decide
 example : selectRandomAgent s0 (nbhd (nbOfConn sp0.conn) 1 false [0, 0]) [5] = .ok 1 0 1 := by decide
+
+-- exact outcomes: in `s0` (capacity 1, agent 0 at (0,0), agent 1 at (1,1)) agent 0 is refused by (1,1), accepted by its own
+-- full cell and by the free cell (0,1), which then lists it while (0,0) is empty again
+example : s0.cellOf 0 ≠ some [1, 1] ∧ sp0.cap [1, 1] = some 1 ∧ (s0.occ [1, 1]).length = 1 := by decide
+example : (step sp0 s0 (.setCell 0 (some [0, 1]))).1.occ [0, 1] = [0] ∧ (step sp0 s0 (.setCell 0 (some [0, 1]))).1.occ [0, 0] = [] ∧
+    (step sp0 s0 (.moveTo 0 [0, 0])).2 = .ok ∧ (step sp0 s0 (.setCell 0 none)).1.cellOf 0 = none := by decide
+-- capacity 0 is a capacity (repair SC3; it used to be falsy = unlimited): a capacity-0 cell refuses everybody, stays empty — also in
+-- the `empty` layer — and is full; the default capacity of a Voronoi cell of area 1/1000 is 0
+private def z0 : Space := gridSpace .vn [1, 2] false (some 0)
+example : (step z0 (run z0 (init z0) [.new .cell]) (.setCell 0 (some [0, 0]))).2 = .err .full ∧
+    (step z0 (run z0 (init z0) [.new .cell]) (.setCell 0 (some [0, 0]))).1.flag [0, 0] = some true ∧
+    isFull z0 (init z0) [0, 0] = true ∧ isEmpty (init z0) [0, 0] = true := by decide
+example : (vorSpaceAreas 3 [(0, 1, 2)] [(1, 1000), (7, 1000), (5, 1)]).cap [0] = some 0 := by decide
+-- several agents of both kinds in one cell of an unbounded grid
+private def z : Space := gridSpace .vn [1, 2] false none
+private def zops : List Op := [.new .cell, .new .fixed, .new .cell, .setCell 0 (some [0, 0]), .setCell 1 (some [0, 0]), .setCell 2 (some [0, 0])]
+example : (run z (init z) zops).occ [0, 0] = [0, 1, 2] ∧ isFull z (run z (init z) zops) [0, 0] = false := by decide
+-- a FixedAgent: placed once, then "Cannot move agent in FixedCell" — also after its `remove()`
+example : (step z (run z (init z) zops) (.setCell 1 (some [0, 1]))).2 = .err .fixed ∧
+    (step z (run z (init z) (zops ++ [.remove 1])) (.setCell 1 (some [0, 1]))).2 = .err .fixed ∧
+    (run z (init z) (zops ++ [.remove 1])).occ [0, 0] = [0, 2] := by decide
+-- emptying the cell that lists a CellAgent, a FixedAgent and another CellAgent: all three leave the cell and the model
+example : (clearCell z (run z (init z) zops) [0, 0]).2 = .ok ∧ (clearCell z (run z (init z) zops) [0, 0]).1.occ [0, 0] = [] ∧
+    (run z (init z) zops).registry = [0, 1, 2] ∧ (clearCell z (run z (init z) zops) [0, 0]).1.registry = [] := by decide
+-- `cell.empty` on a Network: absent before the first `add_agent`, then `is_empty` (False while occupied, True after leaving)
+private def nw : Space := netSpace false 2 [(0, 1)] none
+example : (init nw).flag [0] = none ∧ (run nw (init nw) [.new .cell, .setCell 0 (some [0])]).flag [0] = some false ∧
+    (run nw (init nw) [.new .cell, .setCell 0 (some [0]), .setCell 0 (some [1])]).flag [0] = some true ∧
+    (run nw (init nw) [.new .cell, .setCell 0 (some [0]), .setCell 0 (some [1])]).flag [1] = some false := by decide
+-- rejection sampling: the draws 0, 3, 1 name (0,0), (1,1) — both occupied — and (0,1), which is returned; the list strategy
+-- returns the `d % 2`-th of the two empty cells; with every cell occupied it raises IndexError without a draw
+example : drawn sp0.cells [0, 3, 1] = [[0, 0], [1, 1], [0, 1]] ∧ (step sp0 s0 (.randEmpty [0, 3, 1])).2 = .okCell [0, 1] ∧
+    (step sp0 s0 (.randEmpty [0, 3])).2 = .err .script := by decide
+example : (step sp0 { s0 with tryRandom := false } (.randEmpty [5])).2 = .okCell [1, 0] := by decide
+example : (step z { run z (init z) (zops ++ [.new .cell, .setCell 3 (some [0, 1])]) with tryRandom := false } (.randEmpty [5])).2
+    = .err .index := by decide
 
 end Mesa.Cells
